@@ -46,6 +46,14 @@ Dispatch(i, pid, st, fut) ==
              ELSE IF pid # 0 /\ cmds[j].pid = pid /\ cmds[j].st = "sent" THEN [cmds[j] EXCEPT !.st = "done", !.fut = IF @ = "pending" THEN "cancelled" ELSE @]
              ELSE cmds[j]]
 
+\* the client obtained packet id `pid` for the command it is about to send and registered its future under it: an older future
+\* still stored under the same id is displaced and cancelled - also when the send then fails
+NextId(pid) ==
+  /\ cmds' = [j \in 1..Len(cmds) |->
+               IF pid # 0 /\ cmds[j].pid = pid /\ cmds[j].st = "sent" THEN [cmds[j] EXCEPT !.st = "done", !.fut = IF @ = "pending" THEN "cancelled" ELSE @]
+               ELSE cmds[j]]
+  /\ UNCHANGED <<started, subsS, phase, resubId, cfg, calls, obs, acked>>
+
 \* topic strings of a SUBSCRIBE packet are logged as level sequences; commands carry plain strings: the harness logs both as given,
 \* so a subscription is compared as [f |-> <levels or string>, q]
 ApiCall(a, m, arg) ==
